@@ -75,8 +75,57 @@ def interp_leaf_stream(ctx):
         ctx.violation("C01: <A x, y> != <x, A^H y> for an Interpolate / Gridding leaf", bad, signature="C01:dot:interp-leaf")
 
 
+# per-family leaf-level correspondence: the REAL leaf class (all parameter kinds it accepts, far beyond what the operator
+# trees reach: repeated / wrapped axes, 0-d arrays, multi-channel strided convolutions, per-axis widths, 3-D grids, every
+# orthogonal wavelet, complex64 data, rejected parameters ...) against its function model orc_<family> — the very terms
+# orc_std dispatches to (coq/model/OpaqueStd.v) — evaluated inside Coq; props/opaque_<family>.py, coq/run/RunOpaque<Family>.v
+LEAF_FAMILIES = [("fourier", "Fourier", 15), ("conv", "Conv", 8), ("interp", "Interp", 24), ("wavelet", "Wavelet", 20),
+                 ("nufft", "Nufft", 6)]
+
+
+def opaque_leaf_streams(ctx):
+    import importlib
+    import warnings
+    from vlib import coqlit as L
+    sp = core.import_sigpy()
+    n = ctx.n(20, 300)
+    built = ctx.make(["run/RunOpaque%s.vo" % Fam for _, Fam, _ in LEAF_FAMILIES])      # one make call for the five run files
+    for fam, Fam, per_file in LEAF_FAMILIES:
+        mod = importlib.import_module("props.opaque_" + fam)
+        ok, failing, cs = True, [], []
+        try:
+            if not built:
+                raise RuntimeError("run/RunOpaque%s.vo does not build" % Fam)
+            with warnings.catch_warnings():
+                warnings.simplefilter("ignore")
+                cs = mod.cases(sp, ctx.rng, n)
+            failing = L.run_bool_cases(ctx, "c01_leaf_" + fam, mod.HEADER, cs, per_file=per_file, timeout=1500)
+        except Exception as e:          # generator / Coq failure: fail closed
+            ok = False
+            ctx.notes.append("leaf stream %s could not run: %s" % (fam, repr(e)[:600]))
+        for c in cs:
+            i = c.get("info", {})
+            ctx.count("C01:opaque-leaf:%s:%s" % (fam, i.get("cls") or i.get("kind") or (i.get("params") or {}).get("kind", "leaf")),
+                      key=c["expr"][:3000], nontrivial=bool(i.get("nontrivial", True)), sample={k: i[k] for k in list(i)[:8]})
+        ctx.obligation("corr:%s leaf classes == function model (%d cases)" % (fam, len(cs)), ok and not failing)
+        if failing or not ok:
+            i = failing[0] if failing else None
+            ctx.violation("C01: leaf class and function model disagree (%s family)%s" % (fam, "" if i is None else ", e.g. %s" % str(cs[i].get("info"))[:600]),
+                          {"kind": "correspondence", "broken": "corr:%s leaf classes == function model" % fam,
+                           "case": None if i is None else cs[i].get("info"), "coq_expr": None if i is None else cs[i]["expr"][:4000],
+                           "n_disagreements": len(failing)},
+                          found_input=False, signature="C01:corr:opaque-leaf-%s" % fam)
+        # the helpers also run the numpy dot test / normal test on the same leaves (implementation-side oracle)
+        bad = [c["info"] for c in cs if c.get("info", {}).get("dot_ok") is False or c.get("info", {}).get("oracle")]
+        ctx.obligation("oracle:%s leaf classes pass the dot test (%d leaves)" % (fam, len(cs)), not bad)
+        if bad:
+            ctx.violation("C01: <A x, y> != <x, A^H y> for a %s leaf" % fam, {"kind": "oracle", "case": bad[0]},
+                          signature="C01:dot:opaque-leaf-%s" % fam)
+
+
 def run(ctx):
     linop_common.run_linop(ctx, "C01", "Prop_C01.v", 150, 4000, {"adj", "shapes", "applyH", "dot"})
+    opaque_leaf_streams(ctx)
     interp_leaf_stream(ctx)
     nonorthogonal_wavelet_stream(ctx)
 
